@@ -216,7 +216,7 @@ def run(tier):
     if thorough:
         c3 = cfg(ck, "cow3.cfg", "SPECIFICATION Spec\nCONSTANTS\n  MaxLen = 4\n  MaxSize = 3\nINVARIANT Agree\n"
                                  "CONSTRAINT EmitScripts\nCHECK_DEADLOCK FALSE\n")
-        r3 = vlib.run_tlc("CowVector", c3, workers=8, timeout=3000, simulate=40000, depth=5)
+        r3 = vlib.run_tlc("CowVector", c3, workers=8, timeout=3000, simulate=4000, depth=5)   # (per worker; 40000 exhausted the memory of the driver)
         scripts = scripts + r3.emitted
         states += r3.generated
     obs = replay(ck, exe, "cow", scripts, "cow")
